@@ -21,6 +21,7 @@ package bcl
 //@ ghost var consumed int    // tokens received from the lexer (progress measure)
 //@ ghost var lastfin bool    // the last token received was a finalizer (tEOF/tFAIL)
 //@ ghost var diags int       // diagnostics written to the log
+//@ ghost var lasterr bool    // the last token received was tERR (the lexer follows it with tFAIL)
 //
 // ---------------------------------------------------------------------------
 // Object invariants of the parser (required and ensured by every function
@@ -32,11 +33,13 @@ package bcl
 //@ invariant above_locals (p *parser): p.hadError || g.sd >= p.scope.localCount - g.uninit
 //@ invariant pool (p *parser): forall k string :: has(p.identRefs, k) ==> 0 <= p.identRefs[k] && p.identRefs[k] < len(p.prog.constants) && p.prog.constants[p.identRefs[k]] == VStr(k)
 //@ invariant tok_range (p *parser): 0 <= p.prev.typ && p.prev.typ < tMAX && 0 <= p.current.typ && p.current.typ < tMAX
-//@ invariant fin (p *parser): g.lastfin ==> p.current.typ <= tEOF
+//@ invariant fin (p *parser): (g.lastfin ==> p.current.typ <= tEOF) && !g.lasterr
 //@ invariant [C17] panic_err (p *parser): p.panicMode ==> p.hadError
-//@ invariant [C17] diag_err (p *parser): p.hadError <==> g.diags > 0
+//@ invariant [C17] diag_err (p *parser): (p.hadError <==> g.diags > 0) && g.diags >= 0
 //@ invariant blocks_open (p *parser): p.hadError || g.bd >= 0
 //@ invariant targets_in_code (p *parser): p.hadError || g.maxtarget <= len(p.prog.code)
+//@ invariant [C02] depth_order (p *parser): forall i int :: 0 <= i && i < p.scope.localCount - g.uninit ==> 0 <= p.scope.locals[i].depth && p.scope.locals[i].depth <= p.scope.depth
+//@ invariant [C02] depth_sorted (p *parser): forall i int, j int :: 0 <= i && i < j && j < p.scope.localCount - g.uninit ==> p.scope.locals[i].depth <= p.scope.locals[j].depth
 //@ invariant [C02] uninit_last (p *parser): g.uninit == 1 ==> p.scope.locals[p.scope.localCount-1].depth == 0 - 1
 
 // ---------------------------------------------------------------------------
@@ -69,8 +72,9 @@ package bcl
 //@   ensures in_range: result1 ==> 0 <= result0.typ && result0.typ < tMAX
 //@   ensures err_set: result1 && result0.typ == tERR ==> result0.err != nil
 //@   ensures closed_after_fin: !result1 ==> old(g.lastfin)
+//@   ensures fail_follows_err: result1 && old(g.lasterr) ==> result0.typ == tFAIL
 //@   modifies nothing
-//@   ghost lastfin = result1 ? result0.typ <= tEOF : g.lastfin; consumed = result1 ? g.consumed + 1 : g.consumed
+//@   ghost lastfin = result1 ? result0.typ <= tEOF : g.lastfin; consumed = result1 ? g.consumed + 1 : g.consumed; lasterr = result1 ? result0.typ == tERR : g.lasterr
 //
 //@ func newLexer
 //@   ensures result != nil
@@ -81,7 +85,7 @@ package bcl
 //
 //@ group C17,C06,C10
 //@ func (*parser).errorAt
-//@   noinv above_locals
+//@   noinv above_locals, fin
 //@   ensures reported: p.hadError && p.panicMode
 //@   modifies p.hadError, p.panicMode
 //@   ghost diags = g.diags + 1
@@ -174,19 +178,27 @@ package bcl
 //@   ensures prev_is_old_current: p.prev == old(p.current)
 //@   ensures progress: g.consumed > old(g.consumed) || old(p.current.typ) <= tEOF
 //@   ensures monotone: g.consumed >= old(g.consumed)
+//@   ensures [C17] new_panic_only_at_fail: p.panicMode == old(p.panicMode) || p.current.typ == tFAIL
+//@   noinv fin
+//@   requires fin_in: (g.lastfin ==> p.current.typ <= tEOF) && !g.lasterr
+//@   ensures fin_out: (g.lastfin ==> p.current.typ <= tEOF) && !g.lasterr
 //@   loop 1 invariant invs(p)
+//@   loop 1 invariant (g.lastfin ==> p.current.typ <= tEOF) && (g.lasterr ==> p.current.typ == tERR) && (p.panicMode == old(p.panicMode) || g.lasterr)
 //@   loop 1 invariant p.prev == old(p.current) && g.consumed >= old(g.consumed)
 //@   loop 1 invariant g.consumed > old(g.consumed) || g.lastfin == old(g.lastfin)
 //@   loop 1 increases g.consumed
 //
 //@ func (*parser).sync
-//@   ensures [C17] recovered: !p.panicMode
+//@   ensures [C17] recovered: !p.panicMode || p.current.typ == tFAIL
 //@   ensures [C17] at_statement_start: p.current.typ <= tEOF || p.current.typ == tVAR || p.current.typ == tDEF || p.current.typ == tPRINT || p.current.typ == tEVAL
 //@   ensures monotone: g.consumed >= old(g.consumed)
+//@   ensures [C17] keeps_statement_start: (old(p.current.typ) <= tEOF || old(p.current.typ) == tVAR || old(p.current.typ) == tDEF || old(p.current.typ) == tPRINT || old(p.current.typ) == tEVAL) ==> (p.current == old(p.current) && g.consumed == old(g.consumed))
 //@   ensures progress: g.consumed > old(g.consumed) || old(p.current.typ) <= tEOF || old(p.current.typ) == tVAR || old(p.current.typ) == tDEF || old(p.current.typ) == tPRINT || old(p.current.typ) == tEVAL
 //@   loop 1 invariant invs(p)
 //@   loop 1 invariant g.consumed >= old(g.consumed)
 //@   loop 1 invariant g.consumed > old(g.consumed) || p.current == old(p.current)
+//@   loop 1 invariant [C17] !p.panicMode || p.current.typ == tFAIL
+//@   loop 1 invariant [C17] (old(p.current.typ) <= tEOF || old(p.current.typ) == tVAR || old(p.current.typ) == tDEF || old(p.current.typ) == tPRINT || old(p.current.typ) == tEVAL) ==> (p.current == old(p.current) && g.consumed == old(g.consumed))
 //@   loop 1 increases g.consumed
 
 // ---------------------------------------------------------------------------
@@ -217,7 +229,8 @@ package bcl
 //
 //@ func (*parser).declVar
 //@   requires not_pending: g.uninit == 0
-//@   ensures declared: p.hadError || (p.scope.localCount == old(p.scope.localCount) + 1 && p.scope.locals[p.scope.localCount-1].name == p.prev.val)
+//@   ensures declared: p.hadError || p.scope.localCount == old(p.scope.localCount) + 1
+//@   ensures new_entry: p.scope.localCount == old(p.scope.localCount) + 1 ==> (p.scope.locals[p.scope.localCount-1].name == p.prev.val && p.scope.locals[p.scope.localCount-1].depth == 0 - 1)
 //@   ensures at_least_one: p.scope.localCount >= 1 && p.scope.localCount >= old(p.scope.localCount) && p.scope.localCount <= old(p.scope.localCount) + 1
 //@   ensures older_kept: forall j int :: 0 <= j && j < old(p.scope.localCount) ==> p.scope.locals[j] == old(p.scope.locals[j])
 //@   ensures depth_kept: p.scope.depth == old(p.scope.depth)
@@ -303,6 +316,27 @@ package bcl
 //@   loop 1 invariant len(p.prog.constants) >= old(len(p.prog.constants)) && (forall i int :: 0 <= i && i < old(len(p.prog.constants)) ==> p.prog.constants[i] == old(p.prog.constants[i]))
 //@   loop 1 invariant (g.consumed > old(g.consumed) || old(p.current.typ) <= tEOF) && g.consumed >= old(g.consumed)
 //@   loop 1 increases g.consumed
+//@   assert [C17,C02] assignment_only_at_lowest_precedence: at slot.parseRule.prefix: $canAssign == (prec <= precAssign)
+//@   assert [C17,C02] infix_gets_same_flag: at slot.parseRule.infix: $canAssign == (prec <= precAssign)
+//@   assert [C01] loop_continues_while_binding_tighter: at slot.parseRule.infix: prec <= rules[p.prev.typ].prec
+
+// associativity and operand precedence of the operator functions (C01)
+//@ group C01
+//@ func binary
+//@   implements parseRule.infix
+//@   assert left_associative: at parsePrecedence#1: $prec == rules[p.prev.typ].prec + 1
+//@ func boolAnd
+//@   implements parseRule.infix
+//@   assert right_operand_at_and: at parsePrecedence#1: $prec == precAnd
+//@ func boolOr
+//@   implements parseRule.infix
+//@   assert right_operand_at_or: at parsePrecedence#1: $prec == precOr
+//@ func boolNot
+//@   implements parseRule.prefix
+//@   assert operand_at_not: at parsePrecedence#1: $prec == precNot
+//@ func unary
+//@   implements parseRule.prefix
+//@   assert operand_at_unary: at parsePrecedence#1: $prec == precUnary
 
 // ---------------------------------------------------------------------------
 // statements
@@ -312,19 +346,23 @@ package bcl
 //@   requires statement_boundary: g.uninit == 0 && (p.hadError || (g.pend == F0() && g.sd == p.scope.localCount))
 //@   ensures statement_boundary: g.uninit == 0 && (p.hadError || (g.pend == F0() && g.sd == p.scope.localCount))
 //@   ensures balanced: p.scope.depth == old(p.scope.depth) && (p.hadError || (g.bd == old(g.bd) && g.njopen == old(g.njopen)))
-//@   ensures [C02] at_most_one_new_local: p.scope.localCount >= old(p.scope.localCount) && p.scope.localCount <= old(p.scope.localCount) + 1
+//@   ensures [C02] at_most_one_new_local: p.hadError || (p.scope.localCount >= old(p.scope.localCount) && p.scope.localCount <= old(p.scope.localCount) + 1)
+//@   ensures [C02] older_kept: p.hadError || (forall j int :: 0 <= j && j < old(p.scope.localCount) ==> p.scope.locals[j] == old(p.scope.locals[j]))
+//@   ensures [C02] new_local_in_current_scope: p.hadError || (p.scope.localCount == old(p.scope.localCount) + 1 ==> p.scope.locals[old(p.scope.localCount)].depth == p.scope.depth)
 //@   ensures progress: g.consumed > old(g.consumed) || old(p.current.typ) <= tEOF
-//@   ensures [C17] toplevel_recovered: p.scope.depth == 0 ==> !p.panicMode
+//@   ensures [C17] toplevel_recovered: p.scope.depth == 0 ==> (!p.panicMode || p.current.typ == tFAIL)
 //
 //@ func blockStmt
 //@   requires statement_boundary: g.uninit == 0 && (p.hadError || (g.pend == F0() && g.sd == p.scope.localCount))
 //@   ensures statement_boundary: g.uninit == 0 && (p.hadError || (g.pend == F0() && g.sd == p.scope.localCount))
 //@   ensures balanced: p.scope.depth == old(p.scope.depth) && (p.hadError || (g.bd == old(g.bd) && g.njopen == old(g.njopen)))
-//@   ensures [C02] locals_restored: p.scope.localCount <= old(p.scope.localCount)
+//@   ensures [C02] locals_restored: p.hadError || p.scope.localCount == old(p.scope.localCount)
+//@   ensures [C02] older_kept: p.hadError || (forall j int :: 0 <= j && j < old(p.scope.localCount) ==> p.scope.locals[j] == old(p.scope.locals[j]))
 //@   ensures monotone: g.consumed >= old(g.consumed)
 //@   loop 1 invariant invs(p)
 //@   loop 1 invariant g.uninit == 0 && (p.hadError || (g.pend == F0() && g.sd == p.scope.localCount && g.bd == old(g.bd) + 1 && g.njopen == old(g.njopen)))
 //@   loop 1 invariant p.scope.depth == old(p.scope.depth) + 1 && g.consumed >= old(g.consumed)
+//@   loop 1 invariant [C02] p.hadError || (p.scope.localCount >= old(p.scope.localCount) && (forall j int :: 0 <= j && j < old(p.scope.localCount) ==> p.scope.locals[j] == old(p.scope.locals[j])) && (forall j int :: old(p.scope.localCount) <= j && j < p.scope.localCount ==> p.scope.locals[j].depth > old(p.scope.depth)))
 //@   loop 1 increases g.consumed
 //
 //@ func bindStmt
@@ -334,12 +372,12 @@ package bcl
 //@   ensures monotone: g.consumed >= old(g.consumed)
 //
 //@ func parse
-//@   ghostinit sd = 0; pend = F0(); bd = 0; uninit = 0; njopen = 0; maxtarget = 0; consumed = 0; lastfin = false; diags = 0
+//@   ghostinit sd = 0; pend = F0(); bd = 0; uninit = 0; njopen = 0; maxtarget = 0; consumed = 0; lastfin = false; lasterr = false; diags = 0
 //@   ensures [C17] error_iff_diagnostic: (result2 != nil) <==> g.diags > 0
 //@   ensures result0 != nil
 //@   loop 1 invariant invs(p)
 //@   loop 1 invariant p.scope.depth == 0 && g.uninit == 0 && (p.hadError || (g.pend == F0() && g.sd == p.scope.localCount && g.bd == 0 && g.njopen == 0))
-//@   loop 1 invariant [C17] toplevel_recovered: !p.panicMode
+//@   loop 1 invariant [C17] toplevel_recovered: !p.panicMode || p.current.typ == tFAIL
 //@   loop 1 increases g.consumed
 
 // ---------------------------------------------------------------------------
